@@ -314,13 +314,19 @@ class SP:
     def hstack(self, blocks, **kw):
         bl = [_dense(b) for b in blocks]
         h = builtins.max(b.shape[0] for b in bl)
-        bl = [b if b.shape[0] == h else b.reshape(h, b.size // h if h else 0) for b in bl]
+        for b in bl:
+            if b.shape[0] != h and b.size:
+                raise ValueError('blocks have incompatible row dimensions: %s' % [x.shape for x in bl])      # as scipy does
+        bl = [b if b.shape[0] == h else b.reshape(h, 0) for b in bl]
         return M(_np.hstack(bl))
 
     def vstack(self, blocks, **kw):
         bl = [_dense(b) for b in blocks]
         w = builtins.max(b.shape[1] for b in bl)
-        bl = [b if b.shape[1] == w else b.reshape(b.shape[0], w) for b in bl]
+        for b in bl:
+            if b.shape[1] != w and b.size:
+                raise ValueError('blocks have incompatible column dimensions: %s' % [x.shape for x in bl])   # as scipy does
+        bl = [b if b.shape[1] == w else b.reshape(0, w) for b in bl]
         return M(_np.vstack(bl))
 
 
